@@ -39,3 +39,13 @@ Theorem C24_results_only_from_read_blocks : forall tok re q files r,
   exists f b, In f files /\ In b (fl_blocks f) /\ reads_rows q f b = true /\ opens_file q f = true /\ In r (bk_rows b).
 Proof. exact results_only_from_read_blocks. Qed.
 Print Assumptions C24_results_only_from_read_blocks.
+
+(* ---- kernel ties (DESIGN.md 10.7).  The Go functions the theorems above are about are translated
+   from the current source on every run (Generated/Kernels.v); each tie states that the translated
+   function equals the model definition used above, on the whole range of the Go types
+   (Generated/KernelTie.v; `True` for a kernel the translator reports as not translated). ---- *)
+From BS Require Import Generated.KernelTie Proofs.KTie_eval_minmax.
+
+Theorem C24_kernel_tie_eval_minmax : tie_eval_minmax.
+Proof. exact k_eval_minmax_tie. Qed.
+Print Assumptions C24_kernel_tie_eval_minmax.
